@@ -11,16 +11,19 @@ package inmem
 //@   ensures[transparent] __called("CommitHandler") && __eq(ret0, __lastretT[proxy.CommitResponse]("CommitHandler", 0)) && ret1 == __lastret("CommitHandler", 1)
 
 //@ func (p *InmemProxy) GetSnapshot(blockIndex int) ([]byte, error)
+//@   safety on
 //@   requires p != nil
 //@   call SnapshotHandler assert[same-index] __arg(0) == blockIndex
 //@   ensures[transparent] __called("SnapshotHandler") && __eq(ret0, __lastretT[[]byte]("SnapshotHandler", 0)) && ret1 == __lastret("SnapshotHandler", 1)
 
 //@ func (p *InmemProxy) Restore(snapshot []byte) error
+//@   safety on
 //@   requires p != nil
 //@   call RestoreHandler assert[same-snapshot] __eq(__argT[[]byte](0), snapshot)
 //@   ensures[transparent] __called("RestoreHandler") && ret0 == __lastret("RestoreHandler", 1)
 
 //@ func (p *InmemProxy) OnStateChanged(state state.State) error
+//@   safety on
 //@   requires p != nil
 //@   call StateChangeHandler assert[same-state] __arg(0) == state
 //@   ensures[transparent] __called("StateChangeHandler") && ret0 == __lastret("StateChangeHandler", 0)
@@ -29,6 +32,7 @@ package inmem
 // channel has the same content as the argument and does not share its backing array (the application may reuse
 // its buffer at once).
 //@ func (p *InmemProxy) SubmitTx(tx []byte)
+//@   safety on
 //@   requires p != nil
 //@   call chan<- assert[content]  __samebytes(__argT[[]byte](0), tx)
 //@   call chan<- assert[own-copy] __owned(__arg(0))
